@@ -23,6 +23,7 @@ func init() {
 func runC17(p *eng.Prog, r *eng.Report, tier string) {
 	c := &cx{p, r, tier}
 	c17QuoteChain(c, "C17.10")
+	c17TokenLengthWithinData(c, "C17.11")
 	split := map[string]bool{"styling.Decoder.scan": true, "styling.Decoder.scanSpan": true, "styling.Decoder.scanPre": true}
 	nret := 0
 	fenceWait := 0
@@ -556,4 +557,31 @@ func c17QuoteChain(c *cx, id string) {
 	}
 	c.r.Floor(id, "per-line resets of inner levels in scan", nReset, 1)
 	c.r.Floor(id, "stores to Decoder.quoteSplit in scan", nStore, 2)
+}
+
+// c17TokenLengthWithinData (C17.11): the closing fence token of a pre block is
+// the fence plus the newline behind it if there is one: the token length is
+// increased past the fence only on the edge that establishes that the data is
+// longer than the fence (what the reader says about the end of the input is
+// not a fact about the length of this chunk: a reader that reports EOF
+// together with its last data, or any chunk that ends with the fence, would
+// make data[:l] run past the data or split the token differently).
+func c17TokenLengthWithinData(c *cx, id string) {
+	f := c.fn(id, "styling", "(*Decoder).scanPre")
+	if f == nil {
+		return
+	}
+	n := 0
+	for _, w := range f.Writes() {
+		if w.Tok != token.INC {
+			continue
+		}
+		v := rootLocal(f, w.LHS)
+		if v == nil || !eng.IsLocal(v) {
+			continue
+		}
+		n++
+		c.domAny(id, f, w.Stmt, "token length extended by the newline", []string{"lt(builtin.len(var:styling.fence),builtin.len(p0))", "lt(local:*<int>,builtin.len(p0))", "!eq(builtin.len(p0),builtin.len(var:styling.fence))"})
+	}
+	c.r.Floor(id, "increments of the token length in scanPre", n, 1)
 }
